@@ -193,6 +193,12 @@ impl RK23 {
                 break;
             }
 
+            // Check for underflow due to machine rounding
+            if 0.1 * h.abs() <= x.abs() * Float::EPSILON {
+                status = Status::StepSizeTooSmall;
+                break;
+            }
+
             // Check for last step adjustment
             if (x + h - xend) * posneg > 0.0 {
                 h = xend - x;
@@ -219,6 +225,7 @@ impl RK23 {
             f.ode(x + h, &yt, &mut k4);
 
             evals.ode += 3;
+            steps.total += 1;
 
             // Error estimate using embedded 2nd order solution
             for i in 0..n {
@@ -235,7 +242,6 @@ impl RK23 {
 
             if err <= 1.0 {
                 // Step accepted
-                steps.total += 1;
                 steps.accepted += 1;
 
                 // Update state
@@ -300,9 +306,10 @@ impl RK23 {
             } else {
                 // Step rejected
                 steps.rejected += 1;
+                // max before min: a NaN error norm then yields scale_min (shrink), not 1.0
                 h *= (safety_factor * err.powf(error_exponent))
-                    .min(1.0)
-                    .max(scale_min);
+                    .max(scale_min)
+                    .min(1.0);
             }
         }
 
